@@ -27,6 +27,9 @@ PAYLOADS = {
     "bsbs_dq": 'cA\\\\"cB', "nl": "cA\ncB", "cr": "cA\rcB", "brace": "cA{cB}", "lbrace": "cA{cB", "rbrace": "cA}cB", "fmt0": "cA{0}cB",
     "hash": "cA#cB", "doc_inject": 'cA"""+%s()+"""cB' % MARK, "str_inject": 'cA"+%s()+"cB' % MARK, "sstr_inject": "cA'+%s()+'cB" % MARK,
     "qdq": 'cA""""cB', "q5dq": 'cA"""""cB', "q7dq": 'cA"""""""cB', "trail_qdq": 'cAcB""""',      # runs of quotes whose length is not a multiple of three
+    # both triple-quote styles in one text (a delimiter chosen by looking at one of them is closed by the other)
+    "tdq_tsq_inject": 'cA"""cB\'\'\'+%s()+\'\'\'cC' % MARK, "tsq_tdq_inject": "cA\'\'\'cB\"\"\"+%s()+\"\"\"cC" % MARK, "tsq_inject": "cA\'\'\'+%s()+\'\'\'cB" % MARK,
+    "dq_sq_inject": 'cA"cB\'+%s()+\'cC' % MARK,
     "esc_n": "cA\\ncB", "esc_x": "cA\\x41cB", "trail_dq": 'cAcB"', "toml_ml": 'cA"""\n[x]\ny="""cB',
 }
 PAIR_PAYLOADS = ["tdq", "doc_inject", "str_inject", "trail_bs"]
@@ -261,7 +264,14 @@ def cases(tier):
                     for pay in PAYLOADS:
                         yield {"labels": [f"slot={base}:{slot_name(slot)}", f"payload={pay}", "docstrings_on_attributes"],
                                "payload": _mk(base, [(slot, pay)], "none", {"docstrings_on_attributes": True})}
-        else:
+        # two free-text slots (they may land in ONE docstring) carrying different quote styles
+        texty = [s_ for s_ in slots if s_[0] == "val" and s_[1][-1] in ("description", "title", "example", "default", "summary")]
+        combos = [("tdq", "tsq_inject"), ("tsq_inject", "tdq")] + ([("tsq", "doc_inject"), ("doc_inject", "tsq")] if tier != "quick" else [])
+        for s1, s2 in itertools.combinations(texty, 2):
+            for p1, p2 in combos:
+                yield {"labels": [f"slot={base}:{slot_name(s1)}", f"slot2={base}:{slot_name(s2)}", f"payload={p1}", f"payload2={p2}"],
+                       "payload": _mk(base, [(s1, p1), (s2, p2)], "none", {})}
+        if tier != "quick":
             for s1, s2 in itertools.combinations(slots, 2):
                 for pay in PAIR_PAYLOADS:
                     yield {"labels": [f"slot={base}:{slot_name(s1)}", f"slot2={base}:{slot_name(s2)}", f"payload={pay}"],
